@@ -21,8 +21,14 @@ def run_one(diff, prop, tier, seed):
     try:
         shutil.copytree(SRC, os.path.join(d, "src"))
         p = subprocess.run(["patch", "-p1", "-s", "-i", diff], cwd=d, capture_output=True, text=True)
-        if p.returncode:
-            return dict(diff=diff, prop=prop, error="patch failed: " + p.stdout + p.stderr)
+        partial = False
+        if p.returncode:  # the tree moved on (e.g. a later fix: commit): apply the hunks that still fit
+            shutil.rmtree(os.path.join(d, "src"))
+            shutil.copytree(SRC, os.path.join(d, "src"))
+            p = subprocess.run(["patch", "-p1", "-f", "-s", "--no-backup-if-mismatch", "-r", "-", "-i", diff], cwd=d, capture_output=True, text=True)
+            partial = True
+            if subprocess.run(["diff", "-rq", SRC, os.path.join(d, "src")], capture_output=True).returncode == 0:
+                return dict(diff=diff, prop=prop, error="patch failed: " + p.stdout + p.stderr)
         out = os.path.join(d, "r.json")
         env = dict(os.environ, PYTHONPATH=os.path.join(d, "src"))
         p = subprocess.run([sys.executable, os.path.join(HERE, "run.py"), "--property", prop, "--tier", tier, "--seed", str(seed),
@@ -33,7 +39,7 @@ def run_one(diff, prop, tier, seed):
         known = sum(1 for v in r["violations"] if (v.get("inputs") or {}).get("tag") == "vsl-empty-N1")
         return dict(diff=diff, prop=prop, violations=r.get("violations_total", len(r["violations"])) - known,
                     first=(next((v["what"] for v in r["violations"] if (v.get("inputs") or {}).get("tag") != "vsl-empty-N1"), None)),
-                    evaluations=r["evaluations"], wall=r["wall_s"])
+                    evaluations=r["evaluations"], wall=r["wall_s"], partial=partial)
     finally:
         shutil.rmtree(d, ignore_errors=True)
 
@@ -63,7 +69,7 @@ def main():
             print(f"{name:14s} {r['prop']} ERROR {r['error']}")
         else:
             print(f"{name:14s} {r['prop']} {'DETECTED' if r['violations'] else 'missed  '} viol={r['violations']:<5d} "
-                  f"evals={r['evaluations']:<6d} {r['wall']}s  {str(r['first'])[:110]}")
+                  f"evals={r['evaluations']:<6d} {r['wall']}s  {'(partial patch) ' if r.get('partial') else ''}{str(r['first'])[:110]}")
     if a.json:
         json.dump(res, open(a.json, "w"), indent=1)
 
